@@ -296,6 +296,55 @@ def wrapCallErr (node : Node) (s : Sig) : Sig :=
   | .iter a b c d fst => .iter a b c d fst
   | s => s
 
+def knownNodes : List String :=
+  ["string","number","identifier","statements","funccall","compaccess","list","map","params","guard",
+   ">=","<=","!=","==",">","<","kvp","preset","plus","minus","times","div","modint","divint",":=","let",
+   "import","as","sink","kindmatch","scopematch","statematch","priority","suppresses","function","return",
+   "or","and","not","like","in","hasprefix","hassuffix","notin","false","true","null","if","loop","break",
+   "continue","try","except","otherwise","finally","mutex"]
+
+/-- Validate(): children first, then the node's own checks; first error wins -/
+partial def validate (n : Node) : Except Sig Unit := do
+  for c in n.children do
+    match c with
+    | some c => validate c
+    | none => throw Sig.panic
+  if !(knownNodes.contains n.name) then throw (rtErr "Invalid construct" n)
+  match n.name with
+  | ":=" =>
+    let l0 ← (match n.children[0]? with | some (some x) => pure x | _ => throw Sig.panic)
+    let l ← (if l0.name == "let" then (match l0.children[0]? with | some (some x) => pure x | _ => throw Sig.panic) else pure l0)
+    if l.name == "identifier" then pure ()
+    else if l.name == "list" then
+      for c in l.children do
+        match c with
+        | some c => if c.name != "identifier" then throw (rtErr "Cannot access variable" n)
+        | none => throw Sig.panic
+    else throw (rtErr "Cannot access variable" n)
+  | "let" =>
+    let l ← (match n.children[0]? with | some (some x) => pure x | _ => throw Sig.panic)
+    if l.name == "identifier" then pure ()
+    else if l.name == "list" then
+      for c in l.children do
+        match c with
+        | some c => if c.name != "identifier" then throw (rtErr "Invalid construct" n)
+        | none => throw Sig.panic
+    else throw (rtErr "Invalid construct" n)
+  | "loop" =>
+    let c0 ← (match n.children[0]? with | some (some x) => pure x | _ => throw Sig.panic)
+    if c0.name == "in" then
+      let iv ← (match c0.children[0]? with | some (some x) => pure x | _ => throw Sig.panic)
+      if iv.name == "identifier" then
+        if !iv.children.isEmpty then throw (rtErr "Invalid construct" n)
+      else if iv.name == "list" then
+        for c in iv.children do
+          match c with
+          | some c => if c.name != "identifier" || !c.children.isEmpty then throw (rtErr "Invalid construct" n)
+          | none => throw Sig.panic
+  | "sink" | "import" | "mutex" | "like" => throw (Sig.unsupported s!"node {n.name}")
+  | _ => pure ()
+
+
 mutual
 def eval : Nat → Nat → Node → M Val          -- fuel, scope, node
   | 0, _, _ => throw Sig.fuel
@@ -304,8 +353,9 @@ def eval : Nat → Nat → Node → M Val          -- fuel, scope, node
     | "number" => do pure (.num (← numberOf (← tokOf n)))
     | "string" =>
       let t ← tokOf n
-      if t.allowEscapes && (t.val.zip (t.val.drop 1)).any (fun p => p.1 == 123 && p.2 == 123) then
-        throw (Sig.unsupported "interpolation")
+      if t.allowEscapes then do
+        let r ← interpolate f sc n t.val
+        pure (.str r)
       else pure (.str t.val)
     | "true" => pure (.bool true) | "false" => pure (.bool false) | "null" => pure .null
     | "list" =>
@@ -409,6 +459,42 @@ def eval : Nat → Nat → Node → M Val          -- fuel, scope, node
     | "try" => evalTry f sc n
     | "kvp" | "preset" | "params" | "funccall" | "compaccess" | "as" | "except" | "otherwise" | "finally" => pure Val.null
     | _ => throw (Sig.unsupported s!"node {n.name}")
+
+/-- stringValueRuntime.Eval: loop { GetInfix; parse+eval the code in a child scope; replace once } -/
+def interpolate : Nat → Nat → Node → List Nat → M (List Nat)
+  | 0, _, _, _ => throw Sig.fuel
+  | f+1, sc, n, ret => do
+    -- GetInfix(ret, "{{", "}}")
+    let idx (pat : List Nat) (l : List Nat) : Option Nat :=
+      (List.range (l.length + 1)).find? fun i => pat.isPrefixOf (l.drop i)
+    match idx [123, 123] ret with
+    | none => pure ret
+    | some s0 =>
+      let s := s0 + 2
+      match idx [125, 125] ret with
+      | none => pure ret
+      | some e =>
+        if e < s then throw Sig.panic                     -- str[s:e] with e < s
+        let code := (ret.drop s).take (e - s)
+        if code == ret then pure ret
+        else
+          let repl ← (match Ecal.Parse.parse code with
+            | (some ast, none) =>
+              match validate ast with
+              | .ok _ => do
+                let cs ← newChild sc (← scopeName n)
+                match ← attemptE (eval f cs ast) with
+                | .ok v => sprint v
+                | .error Sig.panic => throw Sig.panic
+                | .error Sig.fuel => throw Sig.fuel
+                | .error (Sig.unsupported w) => throw (Sig.unsupported w)
+                | .error _ => throw (Sig.unsupported "error text inside interpolation")
+              | .error _ => throw (Sig.unsupported "error text inside interpolation")
+            | (_, some Ecal.Parse.Err.panic) => throw Sig.panic
+            | _ => throw (Sig.unsupported "error text inside interpolation"))
+          -- strings.Replace(ret, "{{"+code+"}}", repl, 1): the first occurrence is the one at s0
+          let ret' := ret.take s0 ++ repl ++ ret.drop (e + 2)
+          interpolate f sc n ret'
 
 def numVal : Nat → Nat → Node → (Float → Float) → M Val
   | 0, _, _, _ => throw Sig.fuel
@@ -863,53 +949,5 @@ end Ecal.Ev
 
 namespace Ecal.Ev
 open Ecal.Lex Ecal.Parse
-
-def knownNodes : List String :=
-  ["string","number","identifier","statements","funccall","compaccess","list","map","params","guard",
-   ">=","<=","!=","==",">","<","kvp","preset","plus","minus","times","div","modint","divint",":=","let",
-   "import","as","sink","kindmatch","scopematch","statematch","priority","suppresses","function","return",
-   "or","and","not","like","in","hasprefix","hassuffix","notin","false","true","null","if","loop","break",
-   "continue","try","except","otherwise","finally","mutex"]
-
-/-- Validate(): children first, then the node's own checks; first error wins -/
-partial def validate (n : Node) : Except Sig Unit := do
-  for c in n.children do
-    match c with
-    | some c => validate c
-    | none => throw Sig.panic
-  if !(knownNodes.contains n.name) then throw (rtErr "Invalid construct" n)
-  match n.name with
-  | ":=" =>
-    let l0 ← (match n.children[0]? with | some (some x) => pure x | _ => throw Sig.panic)
-    let l ← (if l0.name == "let" then (match l0.children[0]? with | some (some x) => pure x | _ => throw Sig.panic) else pure l0)
-    if l.name == "identifier" then pure ()
-    else if l.name == "list" then
-      for c in l.children do
-        match c with
-        | some c => if c.name != "identifier" then throw (rtErr "Cannot access variable" n)
-        | none => throw Sig.panic
-    else throw (rtErr "Cannot access variable" n)
-  | "let" =>
-    let l ← (match n.children[0]? with | some (some x) => pure x | _ => throw Sig.panic)
-    if l.name == "identifier" then pure ()
-    else if l.name == "list" then
-      for c in l.children do
-        match c with
-        | some c => if c.name != "identifier" then throw (rtErr "Invalid construct" n)
-        | none => throw Sig.panic
-    else throw (rtErr "Invalid construct" n)
-  | "loop" =>
-    let c0 ← (match n.children[0]? with | some (some x) => pure x | _ => throw Sig.panic)
-    if c0.name == "in" then
-      let iv ← (match c0.children[0]? with | some (some x) => pure x | _ => throw Sig.panic)
-      if iv.name == "identifier" then
-        if !iv.children.isEmpty then throw (rtErr "Invalid construct" n)
-      else if iv.name == "list" then
-        for c in iv.children do
-          match c with
-          | some c => if c.name != "identifier" || !c.children.isEmpty then throw (rtErr "Invalid construct" n)
-          | none => throw Sig.panic
-  | "sink" | "import" | "mutex" | "like" => throw (Sig.unsupported s!"node {n.name}")
-  | _ => pure ()
 
 end Ecal.Ev
